@@ -17,6 +17,10 @@ CLAIMED = {
    text="Deductive proof per function: the three status predicates (initializable / removable / updatable) equal their documented tables; decidePaymentStatus equals the five-row truth table of the statement for every attempt slice (loop invariant over the processed prefix, range quantifiers as recursive functions) and never reports Failed when a settled attempt exists; Registrable is exactly 'Initiated, or InFlight with no settled attempt and not failed'; verifyAttempt returns nil only if sent + attempt amount <= payment amount in exact integers; setState stores the decided status, Value - sent, and the settled/failed flags; and in BOTH back ends (closures of KVStore.InitPayment / RegisterAttempt / updateHtlcKey and SQLStore.InitPayment / RegisterAttempt / SettleAttempt / FailAttempt) every write is dominated by the corresponding verified guard applied to the value just fetched (site obligations).",
    note="A-dom: sum of recorded attempt amounts and a route's receiver amount are <= 2^62 msat (trusted contracts on SentAmt and route.ReceiverAmt). A-glob: sentinel error variables are distinct, non-nil, never reassigned. Not decided: interleavings of concurrent DB transactions (each closure is verified as sequential code), answer-for-answer equality of the two back ends over histories, deletion paths, the DB layers themselves (kvdb / sqlc are opaque).",
    ref="DESIGN.md §4 C16"),
+ "C18": dict(
+   text="Deductive proof per function of the linear fee function and the budget guards: feeRateAtPosition equals a spec function frAt (capped at the ending rate, equal to it from position >= width), the lemmas frAtMono / frAtBounds prove that frAt is non-decreasing in the position and stays within [start, end]; increaseFeeRate / Increment / IncreaseFeeRate preserve the object invariant wfAll and never lower currentFeeRate, fail exactly at position >= width, and IncreaseFeeRate(confTarget <= 1) leaves FeeRate() == endingFeeRate (ceiling reached one block before the deadline); NewLinearFeeFunction establishes the invariant (start <= end, after the fix of finding F6); MaxFeeRateAllowed returns min(MaxFeeRate, budget-over-size); Estimate is at least the relay floor unless capped by the maximum; createAndCheckTx returns a transaction only if its fee <= budget and builds it at FeeRate(); initializeFeeFunction hands exactly those values on.",
+   note="A-fp: float64 conversion/division and btcutil.Amount.MulF64 are uninterpreted; the axioms mulf64_nonneg / mulf64_mono / mulf64_frac / mulf64_scale / frac_mono (IEEE-754 monotone rounding, error below one unit under 2^50) are assumed and listed in the evidence. A-dom: fee rates <= 2^40 sat/kw, budget >= 0, heights in [0, 2^30]. A-ext: chainfee.Estimator results are non-negative. Not decided: that the sweep tx spends all requested inputs and creates no dust output (tx assembly over input.Input interfaces is opaque), estimator behaviour, the block-driven loop that calls the fee function.",
+   ref="DESIGN.md §4 C18"),
 }
 
 NOT_APPLICABLE = {
